@@ -176,6 +176,269 @@ static int r_sort_rows(const Witness &w) {
     return 0;
 }
 
+
+// ------------------------------------------------------------------------------------------------
+// units of c08_kernels2.py
+// ------------------------------------------------------------------------------------------------
+// witness values of UF units are opaque tokens: map them to generic non-zero doubles (token + 1.5, alternating sign)
+static void tokens_to_values(Crs &A) {
+    for (ptrdiff_t j = 0; j < (A.nrows ? A.ptr[A.nrows] : 0); ++j) A.val[j] = (j % 2 ? 1.0 : -1.0) * (A.val[j] + 1.5);
+}
+static int r_inductive_only(const char *what) {
+    std::cout << what << ": inductive / loop-free unit, a failed proof obligation has no concrete input trace" << std::endl;
+    return 3;
+}
+static bool close_to(double a, double b) { return std::fabs(a - b) <= 1e-12 * (std::fabs(a) + std::fabs(b)) || a == b; }
+
+static int r_gershgorin(const Witness &w) {
+    if (!w.has("w_A_nrows")) return r_inductive_only("spectral_radius");
+    auto A = crs_from(w, "A");
+    bool scale = w.num("w_scale") != 0; int pi = (int)w.num("w_power_iters");
+    tokens_to_values(*A);
+    print_crs("A", *A); std::cout << "scale=" << scale << " power_iters=" << pi << std::endl;
+    if (A->nrows != A->ncols || pi > 0) { std::cout << "witness outside the precondition" << std::endl; return 3; }
+    // independent oracle: max_i sum_j |a_ij| [ / |a_ii| ]
+    double expect = 0;
+    for (size_t i = 0; i < A->nrows; ++i) {
+        double s = 0, d = 1; int nd = 0;
+        for (ptrdiff_t j = A->ptr[i]; j < A->ptr[i + 1]; ++j) { s += std::fabs(A->val[j]); if ((size_t)A->col[j] == i) { d = A->val[j]; ++nd; } }
+        if (scale) { if (nd != 1) { std::cout << "witness outside the precondition (diagonal)" << std::endl; return 3; } s *= std::fabs(1 / d); }
+        expect = std::max(expect, s);
+    }
+    double got = scale ? backend::spectral_radius<true>(*A, pi) : backend::spectral_radius<false>(*A, pi);
+    std::cout << "spectral_radius = " << got << " expected (Gershgorin) " << expect << std::endl;
+    if (!close_to(got, expect)) FAIL("spectral_radius<" << (scale ? "true" : "false") << ">(A, " << pi << ") = " << got << " but max row sum = " << expect);
+    return 0;
+}
+
+
+// ---- members of backend::crs.  The dfcc units have no concrete trace; the native side runs a fixed battery of small
+// scenarios on the REAL class (plus the witness matrix when there is one) and evaluates the same contract.
+static std::shared_ptr<Crs> sample_matrix() {        // 3x3, unsorted row, empty row
+    std::shared_ptr<Crs> A = std::make_shared<Crs>();
+    A->set_size(3, 3, true);
+    A->ptr[1] = 2; A->ptr[2] = 0; A->ptr[3] = 1; A->scan_row_sizes(); A->set_nonzeros();
+    A->col[0] = 2; A->val[0] = 5; A->col[1] = 0; A->val[1] = -7; A->col[2] = 1; A->val[2] = 11;
+    return A;
+}
+static bool same_content(const Crs &X, const Crs &Y, std::string &why) {
+    if (X.nrows != Y.nrows || X.ncols != Y.ncols || X.nnz != Y.nnz) { why = "sizes differ"; return false; }
+    if (!Y.ptr || !Y.col || !Y.val) { if (X.ptr || X.col || X.val) { why = "arrays allocated for an incomplete source"; return false; } return true; }
+    if (!X.ptr || !X.col || !X.val) { why = "null array in the copy"; return false; }
+    for (size_t i = 0; i <= Y.nrows; ++i) if (X.ptr[i] != Y.ptr[i]) { why = "ptr differs"; return false; }
+    for (ptrdiff_t j = Y.ptr[0]; j < Y.ptr[Y.nrows]; ++j) if (X.col[j] != Y.col[j] || X.val[j] != Y.val[j]) { why = "entry differs"; return false; }
+    if (X.ptr == Y.ptr || X.col == Y.col || X.val == Y.val) { why = "copy shares an array with the source"; return false; }
+    return true;
+}
+static int r_crs_members(const std::string &unit, const Witness &w) {
+    std::shared_ptr<Crs> S = w.has("w_A_nrows") ? crs_from(w, "A") : sample_matrix();
+    std::string why;
+    if (unit == "crs_copy_ctor") {
+        Crs C(*S);
+        if (!same_content(C, *S, why)) FAIL("copy constructor: " << why);
+        if (!C.own_data) FAIL("copy constructor: the copy does not own its arrays");
+        Crs E; E.nrows = 2; E.ncols = 2; E.nnz = 5;                       // incomplete source (null arrays)
+        Crs F(E);
+        if (F.ptr || F.col || F.val || F.nrows != 2 || F.nnz != 5 || !F.own_data) FAIL("copy constructor: incomplete source not copied as an empty owning matrix");
+        E.nrows = E.ncols = E.nnz = 0;
+        return 0;
+    }
+    if (unit == "crs_copy_assign") {
+        {   // owning target with old content
+            Crs T(*sample_matrix());
+            T = *S;
+            if (!same_content(T, *S, why)) FAIL("copy assignment (owning target): " << why);
+            if (!T.own_data) FAIL("copy assignment: the result does not own its arrays");
+        }
+        {   // target that borrows the user's arrays (zero-copy view)
+            ptrdiff_t up[] = {0, 1, 2}, uc[] = {0, 1}; double uv[] = {1, 2};
+            Crs T; T.own_data = false; T.nrows = T.ncols = 2; T.nnz = 2; T.ptr = up; T.col = uc; T.val = uv;
+            T = *S;
+            bool ok = same_content(T, *S, why);
+            bool owns = T.own_data, stale = (T.ptr == up || T.col == uc || T.val == uv);
+            bool user_ok = up[0] == 0 && up[1] == 1 && up[2] == 2 && uc[0] == 0 && uc[1] == 1 && uv[0] == 1 && uv[1] == 2;
+            if (!owns) { T.own_data = true; }     // let the destructor release what the assignment allocated
+            if (!ok) FAIL("copy assignment (borrowing target): " << why);
+            if (stale) FAIL("copy assignment (borrowing target): a borrowed array is still referenced");
+            if (!user_ok) FAIL("copy assignment (borrowing target): the user's arrays were modified");
+            if (!owns) FAIL("copy assignment (borrowing target): own_data is still false although the matrix now holds arrays it allocated itself (they are never freed)");
+        }
+        {   // self-assignment
+            Crs T(*S); Crs K(*S);
+            Crs &alias = T;
+            T = alias;
+            if (T.nrows != K.nrows || T.nnz != K.nnz || (K.ptr && !T.ptr) || (K.col && !T.col) || (K.val && !T.val))
+                FAIL("self-assignment destroyed the matrix: nrows=" << T.nrows << " nnz=" << T.nnz << " ptr=" << (void*)T.ptr << " col=" << (void*)T.col << " val=" << (void*)T.val);
+            for (size_t i = 0; T.ptr && i <= K.nrows; ++i) if (T.ptr[i] != K.ptr[i]) FAIL("self-assignment changed ptr");
+            for (ptrdiff_t j = 0; T.ptr && j < K.ptr[K.nrows]; ++j) if (T.col[j] != K.col[j] || T.val[j] != K.val[j]) FAIL("self-assignment changed an entry");
+        }
+        return 0;
+    }
+    if (unit == "crs_move_ctor" || unit == "crs_move_assign") {
+        Crs B(*S);
+        size_t n = B.nrows, m = B.ncols, z = B.nnz; ptrdiff_t *p = B.ptr, *c = B.col; double *v = B.val; bool o = B.own_data;
+        if (unit == "crs_move_ctor") {
+            Crs M(std::move(B));
+            if (M.nrows != n || M.ncols != m || M.nnz != z || M.ptr != p || M.col != c || M.val != v || M.own_data != o) FAIL("move constructor: the new matrix is not the old source");
+            if (B.nrows || B.ncols || B.nnz || B.ptr || B.col || B.val) FAIL("move constructor: the source still holds data (two owners)");
+        } else {
+            Crs M(*sample_matrix());
+            size_t n2 = M.nrows, z2 = M.nnz; ptrdiff_t *p2 = M.ptr, *c2 = M.col; double *v2 = M.val; bool o2 = M.own_data;
+            M = std::move(B);
+            if (M.nrows != n || M.ncols != m || M.nnz != z || M.ptr != p || M.col != c || M.val != v || M.own_data != o) FAIL("move assignment: the target is not the old source");
+            if (B.nrows != n2 || B.nnz != z2 || B.ptr != p2 || B.col != c2 || B.val != v2 || B.own_data != o2) FAIL("move assignment: the old content of the target was not handed to the source object (leak or double owner)");
+        }
+        return 0;
+    }
+    if (unit == "crs_set_size") {
+        Crs A; A.set_size(4, 7, true);
+        if (A.nrows != 4 || A.ncols != 7 || !A.ptr) FAIL("set_size: sizes / ptr not set");
+        for (int i = 0; i <= 4; ++i) if (A.ptr[i] != 0) FAIL("set_size(clean_ptr): ptr[" << i << "] != 0");
+        if (A.col || A.val || A.nnz != 0 || !A.own_data) FAIL("set_size: touched col / val / nnz / own_data");
+        bool thrown = false; try { A.set_size(2, 2); } catch (const std::exception&) { thrown = true; }
+        if (!thrown) FAIL("set_size on an allocated matrix does not throw");
+        if (A.nrows != 4 || A.ncols != 7) FAIL("set_size: throwing call changed the sizes");
+        Crs Z; Z.set_size(0, 0, true); if (!Z.ptr || Z.ptr[0] != 0) FAIL("set_size(0,0,true): ptr[0] != 0");
+        return 0;
+    }
+    if (unit == "crs_set_nonzeros_n") {
+        Crs A; A.set_nonzeros(5, false);
+        if (A.nnz != 5 || !A.col || A.val) FAIL("set_nonzeros(n, false): col must be allocated, val must stay null");
+        bool thrown = false; try { A.set_nonzeros(3); } catch (const std::exception&) { thrown = true; }
+        if (!thrown || A.nnz != 5) FAIL("set_nonzeros on allocated col does not throw / changes nnz");
+        Crs B; B.set_nonzeros(4);
+        if (B.nnz != 4 || !B.col || !B.val) FAIL("set_nonzeros(n): col and val must be allocated");
+        B.col[3] = 1; B.val[3] = 1;      // ASan-visible if the arrays are too short
+        return 0;
+    }
+    if (unit == "crs_set_nonzeros") {
+        Crs A; A.set_size(S->nrows, S->ncols, true);
+        for (size_t i = 0; i <= S->nrows; ++i) A.ptr[i] = S->ptr[i];
+        A.set_nonzeros();
+        if (A.nnz != (size_t)S->ptr[S->nrows] || (A.nnz && (!A.col || !A.val))) FAIL("set_nonzeros(): nnz != ptr[nrows] or arrays missing");
+        for (ptrdiff_t j = 0; j < S->ptr[S->nrows]; ++j) if (A.col[j] != 0 || A.val[j] != 0.0) FAIL("set_nonzeros(): cell " << j << " not zero-initialised");
+        bool thrown = false; try { A.set_nonzeros(); } catch (const std::exception&) { thrown = true; }
+        if (!thrown) FAIL("set_nonzeros() on an allocated matrix does not throw");
+        return 0;
+    }
+    if (unit == "crs_scan_row_sizes") {
+        if (!w.has("w_n")) { std::cout << "no witness" << std::endl; return 3; }
+        size_t n = (size_t)w.num("w_n"); std::vector<double> p = w.arr("w_ptr");
+        if (p.size() < n + 2) p.resize(n + 2, 0.0);
+        Crs A; A.set_size(n + 1, 1, true);          // one guard cell beyond ptr[n]
+        for (size_t i = 0; i <= n + 1; ++i) A.ptr[i] = (ptrdiff_t)p[i];
+        A.nrows = n;
+        ptrdiff_t r = A.scan_row_sizes();
+        ptrdiff_t acc = 0;
+        std::cout << "scan_row_sizes n=" << n << " ->"; for (size_t i = 0; i <= n; ++i) std::cout << " " << A.ptr[i]; std::cout << " returns " << r << std::endl;
+        for (size_t i = 0; i <= n; ++i) { acc += (ptrdiff_t)p[i]; if (A.ptr[i] != acc) FAIL("scan_row_sizes: ptr[" << i << "] = " << A.ptr[i] << " expected prefix sum " << acc); }
+        if (r != acc) FAIL("scan_row_sizes: returned " << r << " expected " << acc);
+        if (A.ptr[n + 1] != (ptrdiff_t)p[n + 1]) FAIL("scan_row_sizes: cell beyond nrows modified");
+        A.nrows = n + 1;
+        return 0;
+    }
+    return 3;
+}
+
+
+// ---- row-merge SpGEMM (amgcl/detail/spgemm.hpp)
+static std::vector<ptrdiff_t> idx_arr(const Witness &w, const char *k, size_t n) {
+    std::vector<double> a = w.arr(k); std::vector<ptrdiff_t> r(n, 0);
+    for (size_t i = 0; i < n && i < a.size(); ++i) r[i] = (ptrdiff_t)a[i];
+    return r;
+}
+static bool strictly_ascending(const std::vector<ptrdiff_t> &c) { for (size_t k = 0; k + 1 < c.size(); ++k) if (!(c[k] < c[k + 1])) return false; return true; }
+static int r_merge_rows(const Witness &w, bool with_values) {
+    if (!w.has("w_n1")) { std::cout << "no witness" << std::endl; return 3; }
+    size_t n1 = (size_t)w.num("w_n1"), n2 = (size_t)w.num("w_n2");
+    std::vector<ptrdiff_t> c1 = idx_arr(w, "w_col1", n1), c2 = idx_arr(w, "w_col2", n2);
+    if (!strictly_ascending(c1) || !strictly_ascending(c2)) { std::cout << "witness outside the precondition" << std::endl; return 3; }
+    std::vector<double> v1 = w.arr("w_val1"), v2 = w.arr("w_val2"); v1.resize(n1 + 1, 0.0); v2.resize(n2 + 1, 0.0);
+    double a1 = w.num("w_alpha1"), a2 = w.num("w_alpha2"); bool need_out = with_values || w.num("w_need_out") != 0;
+    const ptrdiff_t G = 424242;
+    std::vector<ptrdiff_t> c3(n1 + n2 + 2, G); std::vector<double> v3(n1 + n2 + 2, 424242.0);
+    c1.push_back(0); c2.push_back(0);
+    ptrdiff_t *e;
+    if (with_values) e = backend::merge_rows(a1, c1.data(), c1.data() + n1, v1.data(), a2, c2.data(), c2.data() + n2, v2.data(), c3.data(), v3.data());
+    else if (need_out) e = backend::merge_rows<true>(c1.data(), c1.data() + n1, c2.data(), c2.data() + n2, c3.data());
+    else e = backend::merge_rows<false>(c1.data(), c1.data() + n1, c2.data(), c2.data() + n2, c3.data());
+    size_t n3 = (size_t)(e - c3.data());
+    std::map<ptrdiff_t, double> expect;
+    for (size_t k = 0; k < n1; ++k) expect[c1[k]] += a1 * v1[k];
+    for (size_t k = 0; k < n2; ++k) expect[c2[k]] += a2 * v2[k];
+    std::cout << "merge_rows: n1=" << n1 << " n2=" << n2 << " -> " << n3 << " columns:"; for (size_t k = 0; k < n3 && k < c3.size(); ++k) std::cout << " " << c3[k]; std::cout << std::endl;
+    if (n3 != expect.size()) FAIL("merge_rows: returned length " << n3 << " but the union has " << expect.size() << " columns");
+    for (size_t k = need_out ? n3 : 0; k < c3.size(); ++k) if (c3[k] != G || v3[k] != 424242.0) FAIL("merge_rows: cell " << k << " beyond the result was written");
+    if (need_out) {
+        size_t k = 0;
+        for (std::map<ptrdiff_t, double>::iterator it = expect.begin(); it != expect.end(); ++it, ++k) {
+            if (c3[k] != it->first) FAIL("merge_rows: output column " << k << " is " << c3[k] << " expected " << it->first);
+            if (with_values && v3[k] != it->second) FAIL("merge_rows: value at column " << c3[k] << " is " << v3[k] << " expected " << it->second);
+        }
+    }
+    return 0;
+}
+static int r_prod_row(const Witness &w, bool with_values) {
+    if (!w.has("w_na")) { std::cout << "no witness" << std::endl; return 3; }
+    auto B = crs_from(w, "B");
+    size_t na = (size_t)w.num("w_na");
+    std::vector<ptrdiff_t> acol = idx_arr(w, "w_acol", na); std::vector<double> aval = w.arr("w_aval"); aval.resize(na + 1, 0.0);
+    print_crs("B", *B); std::cout << "row of A:"; for (size_t k = 0; k < na; ++k) std::cout << " " << acol[k] << ":" << aval[k]; std::cout << std::endl;
+    std::string why;
+    if (!wf(*B, why) || !rows_sorted(*B, true)) { std::cout << "witness outside the precondition" << std::endl; return 3; }
+    size_t W = 0; std::map<ptrdiff_t, double> expect;
+    for (size_t k = 0; k < na; ++k) {
+        if (acol[k] < 0 || (size_t)acol[k] >= B->nrows) { std::cout << "witness outside the precondition" << std::endl; return 3; }
+        W += B->ptr[acol[k] + 1] - B->ptr[acol[k]];
+        for (ptrdiff_t j = B->ptr[acol[k]]; j < B->ptr[acol[k] + 1]; ++j) expect[B->col[j]] += aval[k] * B->val[j];
+    }
+    acol.push_back(0);
+    const ptrdiff_t G = 424242;
+    if (!with_values) {
+        std::vector<ptrdiff_t> T(3 * W + 1, G);         // exactly what spgemm_rmerge hands out (+ one guard cell); ASan-visible otherwise
+        ptrdiff_t r = backend::prod_row_width(acol.data(), acol.data() + na, B->ptr, B->col, T.data(), T.data() + W, T.data() + 2 * W);
+        std::cout << "prod_row_width = " << r << " expected " << expect.size() << std::endl;
+        if ((size_t)r != expect.size()) FAIL("prod_row_width: returned " << r << " but the union of the selected rows has " << expect.size() << " columns");
+        if (T[3 * W] != G) FAIL("prod_row_width: wrote beyond the scratch");
+        return 0;
+    }
+    size_t U = expect.size();
+    std::vector<ptrdiff_t> TC(2 * W + 1, G), OC(U + 1, G); std::vector<double> TV(2 * W + 1, 424242.0), OV(U + 1, 424242.0);
+    backend::prod_row(acol.data(), acol.data() + na, aval.data(), B->ptr, B->col, B->val, OC.data(), OV.data(), TC.data(), TV.data(), TC.data() + W, TV.data() + W);
+    std::cout << "prod_row ->"; for (size_t k = 0; k < U; ++k) std::cout << " " << OC[k] << ":" << OV[k]; std::cout << std::endl;
+    if (OC[U] != G || OV[U] != 424242.0 || TC[2 * W] != G || TV[2 * W] != 424242.0) FAIL("prod_row: wrote beyond the output row / the scratch");
+    size_t k = 0;
+    for (std::map<ptrdiff_t, double>::iterator it = expect.begin(); it != expect.end(); ++it, ++k) {
+        if (OC[k] != it->first) FAIL("prod_row: output column " << k << " is " << OC[k] << " expected " << it->first);
+        if (OV[k] != it->second) FAIL("prod_row: value at column " << OC[k] << " is " << OV[k] << " expected " << it->second);
+    }
+    return 0;
+}
+static int r_spgemm_rmerge(const Witness &w) {
+    if (!w.has("w_A_nrows")) { std::cout << "no witness" << std::endl; return 3; }
+    auto A = crs_from(w, "A"), B = crs_from(w, "B");
+    print_crs("A", *A); print_crs("B", *B);
+    std::string why;
+    if (A->ncols != B->nrows || !wf(*A, why) || !wf(*B, why) || !rows_sorted(*B, true)) { std::cout << "witness outside the precondition" << std::endl; return 3; }
+    Crs C;
+    try { backend::spgemm_rmerge(*A, *B, C); } catch (const std::exception &e) { FAIL("spgemm_rmerge threw: " << e.what()); }
+    print_crs("A*B (rmerge)", C);
+    if (C.nrows != A->nrows || C.ncols != B->ncols) FAIL("spgemm_rmerge: wrong shape");
+    if (!wf(C, why)) FAIL("spgemm_rmerge: result not well-formed: " << why);
+    if (C.nrows && C.nnz != (size_t)C.ptr[C.nrows]) FAIL("spgemm_rmerge: nnz != ptr[n]");
+    std::vector<double> dA = dense(*A), dB = dense(*B), dC = dense(C);
+    std::vector<int> pA = pattern(*A), pB = pattern(*B), pC = pattern(C);
+    size_t n = A->nrows, m = A->ncols, k = B->ncols;
+    for (size_t i = 0; i < n; ++i) for (size_t j = 0; j < k; ++j) {
+        double e = 0; int cnt = 0;
+        for (size_t l = 0; l < m; ++l) { e += dA[i * m + l] * dB[l * k + j]; cnt += pA[i * m + l] * pB[l * k + j]; }
+        if (dC[i * k + j] != e) FAIL("spgemm_rmerge: entry (" << i << "," << j << ") = " << dC[i * k + j] << " expected " << e);
+        if ((pC[i * k + j] > 0) != (cnt > 0)) FAIL("spgemm_rmerge: pattern differs from the structural product at (" << i << "," << j << ")");
+    }
+    if (!rows_sorted(C, true)) FAIL("spgemm_rmerge: a row of the result is not strictly ascending (unsorted or duplicate column)");
+    return 0;
+}
+
 int main(int argc, char **argv) {
     if (argc < 3) return 2;
     std::signal(SIGSEGV, on_crash); std::signal(SIGABRT, on_crash);
@@ -189,6 +452,16 @@ int main(int argc, char **argv) {
     if (unit == "spgemm_saad") return r_spgemm_saad(w);
     if (unit == "builtin_scale") return r_scale(w);
     if (unit == "builtin_sort_rows") return r_sort_rows(w);
+    if (unit == "builtin_diagonal") return r_inductive_only("diagonal");
+    if (unit == "builtin_scale_inductive") return r_inductive_only("scale");
+    if (unit == "builtin_spectral_radius_gershgorin") return r_gershgorin(w);
+    if (unit == "builtin_product_dispatch") return r_inductive_only("product dispatch");
+    if (unit == "spgemm_merge_rows_cols") return r_merge_rows(w, false);
+    if (unit == "spgemm_merge_rows_vals") return r_merge_rows(w, true);
+    if (unit == "spgemm_prod_row_width") return r_prod_row(w, false);
+    if (unit == "spgemm_prod_row") return r_prod_row(w, true);
+    if (unit == "spgemm_rmerge") return r_spgemm_rmerge(w);
+    if (unit.compare(0, 4, "crs_") == 0) return r_crs_members(unit, w);
     std::cout << "no replay for unit " << unit << std::endl;
     return 3;
 }
